@@ -187,6 +187,23 @@ func isCall(e ast.Expr, names ...string) (*ast.CallExpr, *ast.SelectorExpr, bool
 	return nil, nil, false
 }
 
+// addressable reports whether &e is certainly legal (identifiers, field
+// selections, dereferences). Anything else (call results, map elements) is
+// left without a yield point rather than risking a copy that does not build.
+func addressable(e ast.Expr) bool {
+	switch x := e.(type) {
+	case *ast.Ident:
+		return true
+	case *ast.SelectorExpr:
+		return addressable(x.X)
+	case *ast.StarExpr:
+		return true
+	case *ast.ParenExpr:
+		return addressable(x.X)
+	}
+	return false
+}
+
 func isRecv(e ast.Expr) bool {
 	for {
 		p, ok := e.(*ast.ParenExpr)
@@ -212,7 +229,7 @@ func (in *inst) list(l []ast.Stmt) {
 		case *ast.GoStmt:
 			in.goStmt(s)
 		case *ast.ExprStmt:
-			if c, sel, ok := isCall(s.X, "Lock", "RLock"); ok && len(c.Args) == 0 {
+			if c, sel, ok := isCall(s.X, "Lock", "RLock"); ok && len(c.Args) == 0 && addressable(sel.X) {
 				x := in.text(sel.X.Pos(), sel.X.End())
 				hook := "BeforeLock"
 				if sel.Sel.Name == "RLock" {
